@@ -128,7 +128,11 @@ impl Outcome {
         for (k, v) in o.outcomes {
             *self.outcomes.entry(k).or_insert(0) += v;
         }
-        self.violations.extend(o.violations);
+        for v in o.violations {
+            if !self.violations.iter().any(|x| x.key == v.key) {
+                self.violations.push(v);
+            }
+        }
         for s in o.samples {
             if self.samples.len() < 12 {
                 self.samples.push(s);
@@ -405,7 +409,12 @@ pub fn run_sharded(args: &Args, n: usize) -> Outcome {
                 i,
                 n,
                 out.status,
-                text.lines().rev().take(5).collect::<Vec<_>>().join(" | ")
+                text.lines()
+                    .rev()
+                    .filter(|l| !l.starts_with("OUTCOME "))
+                    .take(5)
+                    .collect::<Vec<_>>()
+                    .join(" | ")
             ));
         }
     }
